@@ -59,6 +59,20 @@ fn seq_case(s: &SeqSpec) -> PResult {
     ensure_eq!(got_w.to_string(), exp_w, "windows3", "translation by windows(3) of {}", String::from_utf8_lossy(&letters));
     let got_c: Seq<AminoC> = no_panic("to_amino_panic", "translating chunks(3)", || sl.chunks(3).take(n + 2).map(|c| STANDARD.to_amino(c)).collect())?;
     ensure_eq!(got_c.to_string(), exp_c, "chunks3", "translation by chunks(3) of {}", String::from_utf8_lossy(&letters));
+    // reading frames the usual way: skip(frame).step_by(3) over windows, and nth
+    for frame in 0..3usize {
+        let exp_f: String = if n >= 3 { letters.windows(3).skip(frame).step_by(3).map(|w| model::ncbi_translate(w) as char).collect() } else { String::new() };
+        let got_f: String = no_panic("to_amino_panic", "translating a reading frame", || sl.windows(3).skip(frame).step_by(3).take(n + 2).map(|c| STANDARD.to_amino(c).to_char()).collect())?;
+        ensure_eq!(got_f, exp_f, "reading_frame", "translation of frame {frame} by windows(3).skip({frame}).step_by(3) of {}", String::from_utf8_lossy(&letters));
+        let exp_c: String = letters.chunks_exact(3).skip(frame).step_by(2).map(|w| model::ncbi_translate(w) as char).collect();
+        let got_c: String = sl.chunks(3).skip(frame).step_by(2).take(n + 2).map(|c| STANDARD.to_amino(c).to_char()).collect();
+        ensure_eq!(got_c, exp_c, "chunk_frames", "chunks(3).skip({frame}).step_by(2)");
+    }
+    if n >= 5 {
+        let k = n / 2;
+        let w = no_panic("to_amino_panic", "windows(3).nth", || sl.windows(3).nth(k).map(|c| STANDARD.to_amino(c).to_char()))?;
+        ensure_eq!(w, letters.windows(3).nth(k).map(|w| model::ncbi_translate(w) as char), "nth_window", "translation of windows(3).nth({k})");
+    }
     // the amino sequence is itself a well-formed sequence
     let reparsed = Seq::<AminoC>::try_from(exp_w.as_str());
     ensure!(reparsed.as_ref().ok() == Some(&got_w), "amino_seq", "translated sequence != parsing its text");
@@ -79,9 +93,8 @@ pub fn run(ctx: &mut Ctx) {
     let cases = ctx.cases(2000, 10);
     let max = ctx.pick(300, 1500);
     ctx.forall("sequences", cases, gen::seq_spec(CodecId::Dna, max), seq_case);
-    let th = ctx.thorough();
-    let cases = ctx.cases(8, 8);
-    ctx.forall("sequences_long", cases, gen::seq_spec_long(CodecId::Dna, th), seq_case);
+    let lens = gen::long_lens(ctx.thorough());
+    ctx.forall_lens("sequences_long", &lens, |n| gen::seq_spec_n(CodecId::Dna, n), seq_case);
     ctx.require_class("codon_straddles_word");
     ctx.require_class("offset");
 }
